@@ -25,7 +25,8 @@ KINDS = [dict(group=g, zero=z) for g, z in (INDIVIDUAL, GROUP, BROADCAST)]
 def admissible(t, group, zero):
     """PDU classes the Transport Layer defines per destination kind (03_03_04 §2)."""
     if group and zero:
-        return isinstance(t, TDataBroadcast)
+        # T_Data_Tag_Group (LTE) is group addressed; the statement does not exclude zone/address 0
+        return isinstance(t, (TDataBroadcast, TDataTagGroup))
     if group:
         return isinstance(t, (TDataGroup, TDataTagGroup))
     return isinstance(t, (TDataIndividual, TDataConnected, TConnect, TDisconnect, TAck, TNak))
